@@ -48,6 +48,33 @@ func (r *byteReader) ReadByte() (byte, error) {
 	return buff[0], err
 }
 
+// ExactReader returns a Reader that reads exactly n bytes from r.
+// Unlike io.LimitReader it reports io.ErrUnexpectedEOF when r ends early,
+// so that a truncated frame cannot be mistaken for a complete one.
+func ExactReader(r io.Reader, n int64) io.Reader {
+	return &exactReader{reader: r, remain: n}
+}
+
+type exactReader struct {
+	reader io.Reader
+	remain int64
+}
+
+func (e *exactReader) Read(p []byte) (n int, err error) {
+	if e.remain <= 0 {
+		return 0, io.EOF
+	}
+	if int64(len(p)) > e.remain {
+		p = p[:e.remain]
+	}
+	n, err = e.reader.Read(p)
+	e.remain -= int64(n)
+	if io.EOF == err && e.remain > 0 {
+		err = io.ErrUnexpectedEOF
+	}
+	return
+}
+
 // ToReader wrap message to io.Reader
 func ToReader(message interface{}) (io.Reader, error) {
 
